@@ -34,7 +34,7 @@ def one(sid):
             r0 = sh(['/venv/bin/python', demos[0]], env=dict(os.environ, PYTHONPATH='/repo'), cwd=d)
             r1 = sh(['/venv/bin/python', demos[0]], env=dict(os.environ, PYTHONPATH=d), cwd=d)
             demo_ok = (r0.returncode == 0 and r1.returncode != 0)
-        env = dict(os.environ, ROCKIT_SRC=d, RV_REPLAY_DIR=os.path.join(d, 'replay'), RV_EVIDENCE_DIR=os.path.join(d, 'evidence'))
+        env = dict(os.environ, ROCKIT_SRC=d, RV_REPLAY_DIR=os.path.join(d, 'replay'), RV_EVIDENCE_DIR=os.path.join(d, 'evidence'), RV_INSTANCE_TIMEOUT='45')
         verdict, nv = 'MISSED', 0
         for c in (meta.get('caught_by') or [prop]):
             r = sh([os.path.join(HERE, 'run.sh'), 'check', c, '--tier', 'quick'], env=env)
